@@ -169,11 +169,12 @@ def rule_c05_r2(model: Model) -> RuleResult:
     fi = model.func('pane.convert.into_data')
     hack = [n for n in ast.walk(fi.node) if isinstance(n, ast.Assert) and '_original' in unparse(n)]
     r.instances += 1
-    if hack:
-        ids = [c.name for c in family(model) if (model.find_method(c.qualname, 'into_data') or base_into).qualname == base_into.qualname]
+    ids = [c.name for c in family(model) if (model.find_method(c.qualname, 'into_data') or base_into).qualname == base_into.qualname]
+    r.sample({'top level refuses the default writer': bool(hack), 'converters served by the default writer': sorted(ids)})
+    if hack and ids:
         r.fail('pane.convert.into_data', 'default into_data refused at top level', fi.loc(hack[0]),
                f"into_data(x, T) raises TypeError for every T served by the default implementation ({', '.join(sorted(ids))}): "
-               f"into_data(None, type(None)), into_data('a', Literal['a']) and into_data(x, Any) cannot be serialised although from_data accepts them")
+               f"e.g. into_data(None, type(None)) / into_data('a', Literal['a']) cannot be serialised although from_data accepts them")
     else:
         r.ok()
     return r
